@@ -39,7 +39,7 @@ var nonEmitting = map[string]bool{
 	"Clone": true, "Append": true, "WriteTextTo": true, "WriteHexTo": true, "Finalize": true, "Label": true,
 	"GetLabel": true, "Cap": true, "Len": true, "Bytes": true, "PC": true, "SetBase": true, "GetBase": true,
 	"Comment": true, "EmitBytes": true, "Flags": true, "IsX16bit": true, "IsM16bit": true, "AssumeREP": true,
-	"AssumeSEP": true, "VerifState": true,
+	"AssumeSEP": true, "VerifState": true, // (VerifState: the optional debugging hook of /repo, build tag verif; not used)
 }
 
 // instruction-emitting methods of the real type, by reflection
@@ -91,6 +91,8 @@ func toInt(v interface{}) int {
 }
 
 // invoke a method by name with spec-style arguments; returns panic text ("" if none) and results
+var workBuf = map[int][]byte{}
+
 func invoke(e *asm.Emitter, c callT) (pan string, ret []reflect.Value) {
 	defer func() {
 		if r := recover(); r != nil {
@@ -101,11 +103,19 @@ func invoke(e *asm.Emitter, c callT) (pan string, ret []reflect.Value) {
 		}
 	}()
 	if c.M == "EmitBytes" {
-		b := make([]byte, len(c.A))
+		// callers commonly refill ONE work buffer and emit it again: blocks of equal length share a backing array here
+		b := workBuf[len(c.A)]
+		if b == nil {
+			b = make([]byte, len(c.A))
+			workBuf[len(c.A)] = b
+		}
 		for i, v := range c.A {
 			b[i] = byte(toInt(v))
 		}
 		e.EmitBytes(b)
+		for i := range b { // ... and may scribble over it afterwards
+			b[i] ^= 0x5A
+		}
 		return
 	}
 	mv := reflect.ValueOf(e).MethodByName(c.M)
@@ -162,20 +172,6 @@ func mapU32s(m map[string][]uint32) map[string][]int {
 	}
 	return o
 }
-func lineRecs(ls []asm.VerifLine) []map[string]interface{} {
-	out := make([]map[string]interface{}, 0, len(ls))
-	for _, l := range ls {
-		txt := ""
-		switch l.Type {
-		case 8:
-			txt = l.Ins
-		case 9, 2, 4:
-			txt = l.Label
-		}
-		out = append(out, map[string]interface{}{"t": l.Type, "addr": int(l.Address), "cnt": l.ByteCount, "txt": txt})
-	}
-	return out
-}
 func ints(b []byte) []int {
 	o := make([]int, len(b))
 	for i, x := range b {
@@ -184,16 +180,38 @@ func ints(b []byte) []int {
 	return o
 }
 
-func proj(ev map[string]interface{}, s asm.VerifState) {
+// Everything the harness observes of an Emitter comes through its PUBLIC API (Len, Cap, Bytes, PC, GetBase, Flags,
+// GetLabel for every label name the scenario uses, the two listings, Finalize): no build-tag hook is needed, and a
+// refactoring of private fields cannot disturb the checks.
+type pubState struct {
+	N         int
+	Cap       int
+	HasTarget bool
+	Address   uint32
+	Base      uint32
+	Flags     uint8
+	Labels    map[string]uint32
+}
+
+var scenarioNames []string // label names used by the scenario being executed
+
+func pub(e *asm.Emitter) pubState {
+	s := pubState{N: e.Len(), Cap: e.Cap(), HasTarget: e.Bytes() != nil, Address: e.PC(), Base: e.GetBase(), Flags: uint8(e.Flags()),
+		Labels: map[string]uint32{}}
+	for _, n := range scenarioNames {
+		if v, ok := e.GetLabel(n); ok {
+			s.Labels[n] = v
+		}
+	}
+	return s
+}
+
+func proj(ev map[string]interface{}, s pubState) {
 	ev["n"] = s.N
 	ev["addr"] = int(s.Address)
 	ev["base"] = int(s.Base)
-	ev["baseSet"] = s.BaseSet
 	ev["flags"] = int(s.Flags)
 	ev["labels"] = mapU32(s.Labels)
-	ev["d8"] = mapU32s(s.DanglingS8)
-	ev["d16"] = mapU32s(s.DanglingU16)
-	ev["nl"] = len(s.Lines)
 }
 
 var reHexByte = regexp.MustCompile(`0x([0-9a-f]{2}),`)
@@ -524,8 +542,8 @@ func (x *emitExec) emit(ev map[string]interface{}) {
 
 func (x *emitExec) stateEvent(id int, after string) {
 	e := x.ems[id]
-	s := e.VerifState()
-	ev := map[string]interface{}{"k": "state", "id": id, "gen": s.GenerateText, "lines": lineRecs(s.Lines), "after": after}
+	s := pub(e)
+	ev := map[string]interface{}{"k": "state", "id": id, "after": after}
 	proj(ev, s)
 	if s.HasTarget {
 		ev["cap"] = s.Cap
@@ -539,12 +557,12 @@ func (x *emitExec) stateEvent(id int, after string) {
 
 func (x *emitExec) doCall(id int, c callT) {
 	e := x.ems[id]
-	before := e.VerifState()
+	before := pub(e)
 	pan, ret := invoke(e, c)
 	if id != 2 {
 		x.lastRefused = pan != ""
 	}
-	after := e.VerifState()
+	after := pub(e)
 	ev := map[string]interface{}{"k": "call", "id": id, "m": c.M, "a": c.A, "refused": pan != "", "ret": 0}
 	if c.A == nil {
 		ev["a"] = []int{}
@@ -555,11 +573,6 @@ func (x *emitExec) doCall(id int, c callT) {
 	} else {
 		ev["bytes"] = []int{}
 	}
-	nl := len(before.Lines)
-	if len(after.Lines) < nl {
-		nl = len(after.Lines)
-	}
-	ev["lines"] = lineRecs(after.Lines[nl:])
 	if c.M == "Label" && pan == "" && len(ret) == 1 {
 		ev["ret"] = int(ret[0].Uint())
 	}
@@ -582,6 +595,16 @@ func (x *emitExec) run(sc scenarioT) {
 			x.emit(map[string]interface{}{"k": "crash", "id": 0, "text": fmt.Sprint(r)})
 		}
 	}()
+	scenarioNames = scenarioNames[:0]
+	seen := map[string]bool{}
+	for _, c := range sc.Calls {
+		for _, a := range c.A {
+			if n, ok := a.(string); ok && c.M != "Comment" && !seen[n] {
+				seen[n] = true
+				scenarioNames = append(scenarioNames, n)
+			}
+		}
+	}
 	x.ems = map[int]*asm.Emitter{0: newEmitter(sc.Cap, sc.Gen)}
 	x.emit(map[string]interface{}{"k": "new", "id": 0, "cap": sc.Cap, "gen": sc.Gen})
 	if sc.Dry {
@@ -600,6 +623,7 @@ func (x *emitExec) run(sc scenarioT) {
 		}
 	}
 	appended := false
+	var stack []int // parents of the open clones
 	cur := 0
 	var lastM string
 	var lastBytes []byte
@@ -608,29 +632,43 @@ func (x *emitExec) run(sc scenarioT) {
 	emitted := false
 	for _, c := range sc.Calls {
 		switch c.M {
-		case "Clone":
+		case "Clone": // clones nest: a Clone while a clone is open clones that clone (ids 1, 4, 5, ...)
 			cp := toInt(c.A[0])
-			if cp < 0 {
-				x.ems[1] = x.ems[0].Clone(nil)
-			} else {
-				x.ems[1] = x.ems[0].Clone(make([]byte, cp, cp+11))
+			parent := cur
+			id := 1
+			if len(stack) > 0 {
+				id = 3 + len(stack)
 			}
-			x.emit(map[string]interface{}{"k": "clone", "id": 1, "from": 0, "cap": cp})
-			x.stateEvent(1, "clone")
-			x.stateEvent(0, "clone")
-			cur = 1
+			if cp < 0 {
+				x.ems[id] = x.ems[parent].Clone(nil)
+			} else {
+				x.ems[id] = x.ems[parent].Clone(make([]byte, cp, cp+11))
+			}
+			x.emit(map[string]interface{}{"k": "clone", "id": id, "from": parent, "cap": cp})
+			x.stateEvent(id, "clone")
+			x.stateEvent(parent, "clone")
+			stack = append(stack, parent)
+			cur = id
 		case "Append":
-			x.stateEvent(0, "preappend") // the original must be unaffected by anything done to the clone so far
-			pan := guard(func() { x.ems[0].Append(x.ems[1]) })
-			x.emit(map[string]interface{}{"k": "append", "id": 0, "from": 1, "refused": pan != ""})
-			x.stateEvent(0, "append")
-			cur = 0
+			if len(stack) == 0 {
+				continue
+			}
+			child := cur
+			parent := stack[len(stack)-1]
+			stack = stack[:len(stack)-1]
+			x.stateEvent(parent, "preappend") // the original must be unaffected by anything done to the clone so far
+			pan := guard(func() { x.ems[parent].Append(x.ems[child]) })
+			x.emit(map[string]interface{}{"k": "append", "id": parent, "from": child, "refused": pan != ""})
+			x.stateEvent(parent, "append")
+			cur = parent
 			if pan != "" {
 				x.twinOK = false
 			}
-			appended = true
-			x.twinEvent("append", "", "")
-			x.listingEvents(0, "append")
+			if parent == 0 {
+				appended = true
+				x.twinEvent("append", "", "")
+				x.listingEvents(0, "append")
+			}
 		case "State":
 			for _, id := range []int{0, 1, 2} {
 				if x.ems[id] != nil {
@@ -639,15 +677,13 @@ func (x *emitExec) run(sc scenarioT) {
 			}
 		case "Finalize":
 			id := 0
-			if cur != 0 || !x.ems[0].VerifState().HasTarget {
+			if cur != 0 || !pub(x.ems[0]).HasTarget {
 				continue // out of domain: Finalize while a clone is open / on a dry-run emitter
 			}
 			e := x.ems[id]
 			var err error
 			pan := guard(func() { err = e.Finalize() })
-			s := e.VerifState()
-			ev := map[string]interface{}{"k": "finalize", "id": id, "err": parseFinalizeErr(err), "code": ints(e.Bytes()),
-				"d8": mapU32s(s.DanglingS8), "d16": mapU32s(s.DanglingU16), "panic": pan != "",
+			ev := map[string]interface{}{"k": "finalize", "id": id, "err": parseFinalizeErr(err), "code": ints(e.Bytes()), "panic": pan != "",
 				"after": map[bool]string{true: "append", false: ""}[appended]} // after an Append the outcome also speaks about C16
 			if pan != "" {
 				ev["err"] = map[string]interface{}{"class": "panic", "label": "", "from": 0, "to": 0, "text": pan}
@@ -673,11 +709,11 @@ func (x *emitExec) run(sc scenarioT) {
 			}
 		case "Hex", "Text":
 			id := 0
-			if !x.ems[0].VerifState().HasTarget {
+			if !pub(x.ems[0]).HasTarget {
 				continue
 			}
 			e := x.ems[id]
-			before := e.VerifState()
+			before := pub(e)
 			codeBefore := append([]byte(nil), e.Bytes()...)
 			var buf bytes.Buffer
 			var err error
@@ -688,7 +724,7 @@ func (x *emitExec) run(sc scenarioT) {
 					err = e.WriteTextTo(&buf)
 				}
 			})
-			after := e.VerifState()
+			after := pub(e)
 			changed := !reflect.DeepEqual(before, after) || !bytes.Equal(codeBefore, e.Bytes())
 			ev := map[string]interface{}{"id": id, "panic": pan != "" || err != nil, "changed": changed, "code": ints(e.Bytes())}
 			if c.M == "Hex" {
@@ -700,7 +736,7 @@ func (x *emitExec) run(sc scenarioT) {
 			x.emit(ev)
 		case "Cpu":
 			e := x.ems[0]
-			s := e.VerifState()
+			s := pub(e)
 			for _, which := range []string{"pri", "alt"} {
 				f, mE, xE, pan := runCPU(which, e.Bytes(), s.Base, m0, x0, len(e.Bytes()))
 				if f == nil {
@@ -713,9 +749,9 @@ func (x *emitExec) run(sc scenarioT) {
 				x.emit(decodeEvent(lastM, lastBytes, lastFlags))
 			}
 		default:
-			nb := x.ems[cur].VerifState().N
+			nb := pub(x.ems[cur]).N
 			x.doCall(cur, c)
-			if st := x.ems[cur].VerifState(); st.HasTarget && st.N > nb {
+			if st := pub(x.ems[cur]); st.HasTarget && st.N > nb {
 				lastM, lastBytes, lastFlags = c.M, append([]byte(nil), x.ems[cur].Bytes()[nb:st.N]...), st.Flags
 			} else {
 				lastBytes = nil
@@ -730,7 +766,7 @@ func (x *emitExec) run(sc scenarioT) {
 				}
 			}
 			if !emitted {
-				s := x.ems[0].VerifState()
+				s := pub(x.ems[0])
 				if s.N > 0 {
 					emitted = true
 				} else { // initial width assumption = tracked flags before the first emission
@@ -759,11 +795,11 @@ func (x *emitExec) run_end() {
 // both listings of emitter id as parsed events (the public output is what C15 / C16 speak about)
 func (x *emitExec) listingEvents(id int, after string) {
 	e := x.ems[id]
-	if e == nil || !e.VerifState().HasTarget {
+	if e == nil || !pub(e).HasTarget {
 		return
 	}
 	for _, kind := range []string{"hex", "text"} {
-		before := e.VerifState()
+		before := pub(e)
 		codeBefore := append([]byte(nil), e.Bytes()...)
 		var buf bytes.Buffer
 		var err error
@@ -774,7 +810,7 @@ func (x *emitExec) listingEvents(id int, after string) {
 				err = e.WriteTextTo(&buf)
 			}
 		})
-		changed := !reflect.DeepEqual(before, e.VerifState()) || !bytes.Equal(codeBefore, e.Bytes())
+		changed := !reflect.DeepEqual(before, pub(e)) || !bytes.Equal(codeBefore, e.Bytes())
 		ev := map[string]interface{}{"k": kind, "id": id, "panic": pan != "" || err != nil, "changed": changed, "code": ints(e.Bytes()), "after": after}
 		if kind == "hex" {
 			items, all := parseHex(buf.String())
@@ -803,7 +839,7 @@ func (x *emitExec) twinEvent(after, fin0, fin3 string) {
 		})
 		return buf.String()
 	}
-	sa, sb := a.VerifState(), b.VerifState()
+	sa, sb := pub(a), pub(b)
 	same := map[string]bool{
 		"code": bytes.Equal(a.Bytes(), b.Bytes()), "n": a.Len() == b.Len(), "addr": a.PC() == b.PC(),
 		"flags": sa.Flags == sb.Flags, "base": a.GetBase() == b.GetBase(), "labels": reflect.DeepEqual(sa.Labels, sb.Labels),
